@@ -2,6 +2,9 @@
    paths (constrained.py per-sample path, sampleset.py vectorised path).  No proofs here. *)
 From Coq Require Import List ZArith QArith Qcanon Bool Arith.
 From Dimod Require Import Base.Util Model.Poly.
+(* <=, abs, max(., 0) and every formula of the two code paths come from the source, through
+   translators/feas_formulas.py; only the SPECIFICATION below is written by hand *)
+From Dimod Require Export Gen.Gen_Feas.
 Import ListNotations.
 Open Scope Qc_scope.
 
@@ -14,9 +17,6 @@ Record constraint := mkCon {
 
 Record cqm := mkCqm { m_obj : poly; m_cons : list constraint }.
 
-Definition Qc_leb (a b : Qc) : bool := Qle_bool a b.
-Definition qabs (q : Qc) : Qc := if Qc_leb 0 q then q else - q.
-Definition qmax0 (q : Qc) : Qc := if Qc_leb q 0 then 0 else q.
 Definition is_soft (k : constraint) : bool := match c_soft k with Some _ => true | None => false end.
 Definition is_hard (k : constraint) : bool := negb (is_soft k).
 
@@ -63,9 +63,11 @@ Record datum := mkDatum {
 Definition constraint_datum (k : constraint) (s : sample) : datum :=
   let lhs := energy (c_lhs k) s in
   let rhs := c_rhs k in
-  let act := lhs - rhs in
+  let act := gen_ps_activity lhs rhs in
   mkDatum lhs rhs (c_sense k) act
-    (match c_sense k with Eq => qabs act | Ge => - act | Le => act end).
+    (match c_sense k with
+     | Eq => gen_ps_violation_eq act | Ge => gen_ps_violation_ge act | Le => gen_ps_violation_le act
+     end).
 
 Definition iter_constraint_data (m : cqm) (s : sample) : list datum :=
   map (fun k => constraint_datum k s) (m_cons m).
@@ -74,14 +76,14 @@ Definition iter_constraint_data (m : cqm) (s : sample) : list datum :=
 Definition iter_violations (m : cqm) (s : sample) (skip_satisfied clip : bool) : list (nat * Qc) :=
   let data := combine (seq 0 (length (m_cons m))) (iter_constraint_data m s) in
   if skip_satisfied then
-    map (fun id => (fst id, d_violation (snd id)))
-        (filter (fun id => negb (Qc_leb (d_violation (snd id)) 0)) data)
-  else if clip then map (fun id => (fst id, qmax0 (d_violation (snd id)))) data
-  else map (fun id => (fst id, d_violation (snd id))) data.
+    map (fun id => (fst id, gen_ps_skip_value (d_violation (snd id))))
+        (filter (fun id => gen_ps_skip_keeps (d_violation (snd id))) data)
+  else if clip then map (fun id => (fst id, gen_ps_clip (d_violation (snd id)))) data
+  else map (fun id => (fst id, gen_ps_plain (d_violation (snd id)))) data.
 
 (* all(...) over EVERY constraint datum, soft ones included *)
 Definition check_feasible (m : cqm) (s : sample) (rtol atol : Qc) : bool :=
-  forallb (fun d => Qc_leb (d_violation d) (atol + rtol * qabs (d_rhs d))) (iter_constraint_data m s).
+  forallb (fun d => Qc_leb (d_violation d) (gen_ps_tolerance atol rtol (d_rhs d))) (iter_constraint_data m s).
 
 (* ------------------------------------------------------------------ *)
 (* sampleset.py: SampleSet.from_samples_cqm, column by column.
@@ -92,21 +94,22 @@ Definition check_feasible (m : cqm) (s : sample) (rtol atol : Qc) : bool :=
 Definition col_violation (k : constraint) (s : sample) : Qc :=
   let lhs := energy (c_lhs k) s in
   let rhs := c_rhs k in
-  match c_sense k with Eq => qabs (lhs - rhs) | Ge => rhs - lhs | Le => lhs - rhs end.
+  match c_sense k with
+  | Eq => gen_vec_violation_eq lhs rhs | Ge => gen_vec_violation_ge lhs rhs | Le => gen_vec_violation_le lhs rhs
+  end.
 
 Definition column (atol rtol : Qc) (k : constraint) (samples : list sample) : list bool :=
-  map (fun s => Qc_leb (col_violation k s) (atol + rtol * qabs (c_rhs k))) samples.
+  map (fun s => Qc_leb (col_violation k s) (gen_vec_tolerance atol rtol (c_rhs k))) samples.
 
 Definition add_penalty (k : constraint) (col : list bool) (samples : list sample) (energies : list Qc) : list Qc :=
   match c_soft k with
   | None => energies
   | Some (w, pen) =>
       map (fun ecs : Qc * (bool * sample) => let '(e, (sat, s)) := ecs in
-                      e + w * (if sat then 0 else 1)
-                          * match pen with
-                            | PLinear => col_violation k s
-                            | PQuadratic => col_violation k s * col_violation k s
-                            end)
+                      e + match pen with
+                          | PLinear => gen_vec_penalty_linear w (if sat then 0 else 1) (col_violation k s)
+                          | PQuadratic => gen_vec_penalty_quadratic w (if sat then 0 else 1) (col_violation k s)
+                          end)
           (combine energies (combine col samples))
   end.
 
@@ -132,10 +135,10 @@ Record vec_result := mkVec {
 Definition from_samples_cqm (atol rtol : Qc) (m : cqm) (samples : list sample) (garb : list bool) : vec_result :=
   let res := vec_loop atol rtol (m_cons m) garb true samples (map (energy (m_obj m)) samples) in
   let marks := snd res in
-  let sat_row := fun s => map (fun k => Qc_leb (col_violation k s) (atol + rtol * qabs (c_rhs k))) (m_cons m) in
+  let sat_row := fun s => map (fun k => Qc_leb (col_violation k s) (gen_vec_tolerance atol rtol (c_rhs k))) (m_cons m) in
   mkVec (fst res) (map sat_row samples)
     (if existsb (fun b => b) marks
-     then map (fun s => forallb (fun km => snd km || Qc_leb (col_violation (fst km) s) (atol + rtol * qabs (c_rhs (fst km))))
+     then map (fun s => forallb (fun km => snd km || Qc_leb (col_violation (fst km) s) (gen_vec_tolerance atol rtol (c_rhs (fst km))))
                                 (combine (m_cons m) marks)) samples
      else map (fun s => forallb (fun b => b) (sat_row s)) samples).
 
